@@ -5,7 +5,8 @@ namespace SoyVerif.Ops.Writer
 open SoyVerif SoyVerif.Ops SoyVerif.Model.Writer
 
 def decChunks (s : String) : Option (List Bytes) :=
-  if s == "-" then some [] else (s.splitOn ",").mapM Bytes.ofHex
+  -- "." = no Write call at all; "-" = one Write call with no bytes (e.g. a lone {nil})
+  if s == "." then some [] else (s.splitOn ",").mapM Bytes.ofHex
 
 def ops : List Op := [
   -- fields: sources, template, data (ignored by the model); chunks of the fault-free run; room; failAt (-1 = none)
